@@ -39,9 +39,10 @@ class C15(Spec):
     def extra_stage(self, tier, seed): return cluster_stage(tier, seed)
 
     pid = "C15"
-    lean_module = "NunVerif.Props.C15"
+    lean_module = "NunVerif.Props.C15Self"
     theorems = ["Nun.C15_ack_unknown_noop", "Nun.C15_ack_idempotent", "Nun.C15_ack_foreign_keeps_counts",
-                "Nun.C15_counts", "Nun.C15_exact", "Nun.C15_drained", "Nun.C15_stuck_without_nodup"]
+                "Nun.C15_counts", "Nun.C15_exact", "Nun.C15_drained", "Nun.C15_stuck_without_nodup",
+                "Nun.C15_never_waits_for_itself", "Nun.replSend_notWaitingForSelf", "Nun.replStep_notWaitingForSelf", "Nun.ack_notWaitingFor", "Nun.register_notWaitingFor"]
     rule = ("exhaustive: every sequence of exactly L events over {REG,ACK} x ops x nodes through the public "
             "register_pending_opp / acknowledge_pending_opp, and the acknowledgement as the `ack` command on an authenticated link with the node's role changing in between (concedes an election, told of another primary, wins again) (a sequence covers all its prefixes: the pending table "
             "is dumped and compared with the Lean model after every event); plus seeded random sequences over 3 ops x 3 nodes. "
